@@ -132,6 +132,7 @@ class _RunnerIterator(iter_utils.MultiplexIterator[_ValueT]):
         k: v for k, v in state.items() if k.metrics in self._runner.agg_fns
     }
     self._with_agg = state and with_agg_state
+    self._agg_error = None
 
     def iter_fn(
         input_iterator: Iterable[tree.TreeLike] = (),
@@ -192,6 +193,13 @@ class _RunnerIterator(iter_utils.MultiplexIterator[_ValueT]):
         _LOGGING_INTERVAL_SECS,
     )
     try:
+      if self._agg_error is not None:
+        # This stage failed, it did not finish: a consumer that skipped the
+        # error as an element error (the next stage with ignore_error) and asks
+        # again must not see a normal end of the iteration.
+        raise RuntimeError(
+            f'"{self.name}" stopped after its aggregation failed.'
+        ) from self._agg_error
       batch_output = super().__next__()
       self.batch_index += 1
       if self._with_agg:
@@ -199,10 +207,11 @@ class _RunnerIterator(iter_utils.MultiplexIterator[_ValueT]):
           self.agg_state = self._runner.update_state(
               self.agg_state, batch_output
           )
-        except Exception:
+        except Exception as e:
           # The iteration is over: releases the worker threads, if any.
           self.maybe_stop()
           self._iterator = iter(())
+          self._agg_error = e
           raise
       logging.debug(
           'chainable: %s', f'"{self.name}" batch cnt {self.batch_index}.'
